@@ -67,7 +67,11 @@ def universe():
 
 
 def cases(tier, seed):
-    return stratified_sample(universe(), lambda c: c["stratum"], 360 if tier == "quick" else 0, seed)
+    u = universe()
+    if tier != "quick":
+        return u
+    # quick: stratified sample + every hand-written snippet (tiny, cheap, aimed at quoted / non-ASCII tokens)
+    return stratified_sample([c for c in u if c["kind"] != "lit"], lambda c: c["stratum"], 300, seed) + [c for c in u if c["kind"] == "lit"]
 
 
 QUOTE_START = ("'", '"', "`", "[", "$$")
